@@ -127,6 +127,15 @@ mut("eval_params_copied_from_wrong_slot", ["C01"], "Expr.Eval/callsite/params-ar
       "\t\t\t\tparams = make([]Value, cCnt)\n\t\t\t\tcopy(params, os[osTop+2:])\n\t\t\t}\n\n\t\t\tres, err = curt.operator(ctx, params)")], "n-ary operators get their operands shifted by one stack slot")
 mut("tryeval_params_one_too_long", ["C04"], "Expr.TryEval/callsite/executeOperatorProxy:params-are-operands",
     [("engine.go", "\t\t\t\tparam = make([]Value, cCnt)\n\t\t\t\tcopy(param, os[osTop+1:])", "\t\t\t\tparam = make([]Value, cCnt+1)\n\t\t\t\tcopy(param, os[osTop+1:])")], "TryEval passes one stale extra operand to n-ary operators")
+# ---- C02 (directive lines)
+mut("parseconfig_stops_after_optimize_pair", ["C02"], "parser.parseConfig/exit/loop2[every-pair-of-the-line-processed]/break",
+    [("parser.go", "\t\t\tdefault:\n\t\t\t\treturn p.errWithToken(fmt.Errorf(\"unsupported compile config %s\", s), t)\n\t\t\t}\n",
+      "\t\t\tdefault:\n\t\t\t\treturn p.errWithToken(fmt.Errorf(\"unsupported compile config %s\", s), t)\n\t\t\t}\n\t\t\tif option == Optimize {\n\t\t\t\tbreak\n\t\t\t}\n")], "pairs after optimize: on the same directive line are dropped")
+mut("fasteval_accepts_zero_operand_calls", ["C02"], "optimizeFastEvaluation/",
+    [("compiler.go", "\t\ttyp := child.node.getNodeType()\n\t\tif typ == constant || typ == variable {\n\t\t\tcontinue\n\t\t}\n\t\treturn\n\t}\n\n\totherPartMask",
+      "\t\ttyp := child.node.getNodeType()\n\t\tif typ == constant || typ == variable || len(child.children) == 0 {\n\t\t\tcontinue\n\t\t}\n\t\treturn\n\t}\n\n\totherPartMask")], "an operator call without operands is inlined as if it were a leaf")
+mut("fasteval_clears_shortcircuit_bits", ["C02"], "optimizeFastEvaluation/storesite/node.flag[fast-only-for-two-leaf-operands]",
+    [("compiler.go", "\totherPartMask := nodeTypeMask ^ uint8(0xFF)\n\n\troot.node.flag = fastOperator | (root.node.flag & otherPartMask)", "\totherPartMask := nodeTypeMask ^ uint8(0x7F)\n\n\troot.node.flag = fastOperator | (root.node.flag & otherPartMask)")], "the rewrite drops the top flag bit")
 
 def main():
     out = os.path.join(os.path.dirname(os.path.abspath(__file__)), "mutants")
